@@ -117,6 +117,33 @@ template<class T, size_t M, size_t K, size_t N, int OP> static void own_case(con
         emit_mem(id, tt, op, dims, side, 0, A->data(), (size_t)A->size(), B->data(), OP == 1 ? 0 : (size_t)B->size(), (T)0, (int)fault, (long)g_allocs, can, C->data(), (size_t)C->size());
     }
 }
+// triangular product on whole Tensor objects against the guard pages; operands are zero outside the tagged triangle (the promise of tmatmul)
+template<class T> static void zero_outside(T* p, size_t rows, size_t cols, int tag) {
+    for (size_t i = 0; i < rows; ++i) for (size_t j = 0; j < cols; ++j) if ((tag == 1 && j > i) || (tag == 2 && j < i)) p[i * cols + j] = T(0);
+    asm volatile("" : : "r"(p) : "memory");
+}
+template<class T, size_t M, size_t K, size_t N, class LT, class RT, int LTAG, int RTAG> static void own_tcase(const char* id, const char* tt) {
+    using TA = Tensor<T,M,K>; using TB = Tensor<T,K,N>; using TC = Tensor<T,M,N>;
+    for (int side = 0; side < 2; ++side) {
+        vt::g_cur_case = id;
+        vt::Rng r(vt::hash_str(id) + side);
+        Slot sa(sizeof(TA), side, 0), sb(sizeof(TB), side, 0), sc(sizeof(TC), side, 0);
+        TA* A = new (sa.p) TA; TB* B = new (sb.p) TB; TC* C = new (sc.p) TC;
+        fill(A->data(), M * K, r); fill(B->data(), K * N, r); zero_outside(A->data(), M, K, LTAG); zero_outside(B->data(), K, N, RTAG);
+        for (size_t i = 0; i < M * N; ++i) C->data()[i] = (T)0;
+        memset((char*)A->data() + sizeof(T) * M * K, 0x5A, sizeof(TA) - sizeof(T) * M * K);
+        memset((char*)B->data() + sizeof(T) * K * N, 0x5A, sizeof(TB) - sizeof(T) * K * N);
+        memset((char*)C->data() + sizeof(T) * M * N, 0x5A, sizeof(TC) - sizeof(T) * M * N);
+        volatile int fault = 0;
+        g_allocs = 0;
+        int sig = sigsetjmp(g_jmp, 1);
+        if (sig == 0) { g_armed = 1; g_counting = 1; *C = tmatmul<LT,RT>(*A, *B); g_counting = 0; g_armed = 0; }
+        else { g_counting = 0; fault = sig; }
+        int can = sa.canary_ok() && sb.canary_ok() && sc.canary_ok();
+        char dims[96]; snprintf(dims, sizeof dims, ",\"M\":%d,\"K\":%d,\"N\":%d,\"lt\":%d,\"rt\":%d", (int)M, (int)K, (int)N, LTAG, RTAG);
+        emit_mem(id, tt, "tmatmul", dims, side, 0, A->data(), M * K, B->data(), K * N, (T)0, (int)fault, (long)g_allocs, can, C->data(), M * N);
+    }
+}
 template<class TA, class TB, class TC> static void own_apply(std::integral_constant<int,0>, const TA& A, const TB& B, TC& C) { C = A % B; }
 template<class TA, class TB, class TC> static void own_apply(std::integral_constant<int,1>, const TA& A, const TB&, TC& C) { C = transpose(A); }
 template<class TA, class TB, class TC> static void own_apply(std::integral_constant<int,2>, const TA& A, const TB& B, TC& C) { C = matmul(A, B); }
@@ -190,6 +217,34 @@ class C07(Check):
             for isa, r in m["routes"].items():
                 self.route_cover.setdefault(isa, {}).setdefault(r, 0)
                 self.route_cover[isa][r] += 1
+        # likewise the triangular product (every tag pair and clip class of the C17 plan, hash-halved) and the 2-D transposes of the C14 plan
+        import hashlib
+        tcfg = "GenTmatmul_%s.cfg" % ctx.tier
+        titems, gen, dist, out = tlc_emit(ctx, "GenTmatmul", tcfg, env={"VERIF_SEED": str(ctx.seed)}, timeout=1500)
+        if "No error has been found" not in out:
+            raise ToolFailure("GenTmatmul failed: " + out[-1500:])
+        ctx.mc_results.append({"module": "GenTmatmul", "cfg": tcfg, "generated": gen, "distinct": dist, "ok": True, "wall_s": 0, "action_coverage": {}})
+        for m in titems:
+            if m.get("kind") != "mm" or m["T"] not in ("f64", "f32"):
+                continue
+            cid = "mem/own/tmatmul/%s/%s%s/%dx%dx%d" % (m["T"], m["lt"][0], m["rt"][0], m["M"], m["K"], m["N"])
+            if cid in have or int(hashlib.md5((cid + str(ctx.seed)).encode()).hexdigest(), 16) % 2:
+                continue
+            have.add(cid)
+            items.append({"fam": "own", "op": "tmatmul", "T": m["T"], "M": m["M"], "K": m["K"], "N": m["N"], "lt": m["lt"], "rt": m["rt"], "case": cid})
+        pcfg = "GenPermute_%s.cfg" % ctx.tier
+        pitems, gen, dist, out = tlc_emit(ctx, "GenPermute", pcfg, env={"VERIF_SEED": str(ctx.seed)})
+        if "No error has been found" not in out:
+            raise ToolFailure("GenPermute failed: " + out[-1500:])
+        ctx.mc_results.append({"module": "GenPermute", "cfg": pcfg, "generated": gen, "distinct": dist, "ok": True, "wall_s": 0, "action_coverage": {}})
+        for m in pitems:
+            if len(m["shape"]) != 2 or m["T"] not in ("f64", "f32"):
+                continue
+            cid = "mem/own/transpose/%s/%dx1x%d" % (m["T"], m["shape"][0], m["shape"][1])
+            if cid in have:
+                continue
+            have.add(cid)
+            items.append({"fam": "own", "op": "transpose", "T": m["T"], "M": m["shape"][0], "K": 1, "N": m["shape"][1], "case": cid})
         items.sort(key=lambda c: c["case"])
         return items
 
@@ -200,6 +255,9 @@ class C07(Check):
         T = CXX_T[c["T"]]
         if c["fam"] == "map":
             return '    map_case<%s,%d,%d>("%s","%s","%s");' % (T, c["N"], MAPOP[c["op"]], c["case"], c["T"], c["op"])
+        if c["fam"] == "own" and c["op"] == "tmatmul":
+            TAG = {"General": ("UpLoType::General", 0), "Lower": ("UpLoType::Lower", 1), "Upper": ("UpLoType::Upper", 2)}
+            return '    own_tcase<%s,%d,%d,%d,%s,%s,%d,%d>("%s","%s");' % (T, c["M"], c["K"], c["N"], TAG[c["lt"]][0], TAG[c["rt"]][0], TAG[c["lt"]][1], TAG[c["rt"]][1], c["case"], c["T"])
         if c["fam"] == "own":
             return '    own_case<%s,%d,%d,%d,%d>("%s","%s","%s");' % (T, c["M"], c["K"], c["N"], OWNOP[c["op"]], c["case"], c["T"], c["op"])
         sh = c["shape"]
